@@ -4858,6 +4858,11 @@ def _form_to_layout(
                 )
             )
 
+        if len(tags) != length:
+            tags = _index_form_to_index[form.tags](array_tags)
+        if len(index) != length:
+            index = _index_form_to_index[form.index](array_index)
+
         return _form_to_layout_class[type(form), form.index](
             tags, index, contents, identities, parameters
         )
